@@ -6,7 +6,7 @@ from lib.common import LEAN, write_if_changed
 from lib import solvercheck as SC
 import translate_solver as ts
 
-THEOREMS = ["Claripy.Props.C16.C16_mro_solver"]
+THEOREMS = ["Claripy.Props.C16.C16_mro_solver", "Claripy.Props.C16.C16_core_ids", "Claripy.Props.C16.C16_core_after_check"]
 A = lambda c, s=0: {"s": s, "op": "add", "cs": [c]}  # noqa: E731
 CORE = lambda s=0: {"s": s, "op": "unsat_core", "extra": []}  # noqa: E731
 RULES = {
